@@ -141,7 +141,7 @@ func checkC04(c C04Case, env *Env) *Violation {
 		var ids []ident
 		if inf.bind != nil {
 			for _, o := range inf.bind.Occs {
-				if o.Name.Off == o.Name.End || dcName(o.Name.Text) || (o.Decl != nil && o.Decl.Kind == reflua.DSelf) {
+				if o.Name.Off == o.Name.End || dcOcc(o) || (o.Decl != nil && o.Decl.Kind == reflua.DSelf) {
 					continue
 				}
 				if (gate("c05-bracket-quote") && kfBracketQuote(f.Text, o.Name.Off)) || (gate("c05-glued-bracket") && kfGluedBracket(f.Text, o.Name.Off)) {
